@@ -158,6 +158,28 @@ def c12_driver(a, col):
             col.add([_V("C12", ok, "operation-operator", f"{sp['fam']}.{sp['type']} dims={dims}: {det}",
                         ("Operation.operator", sp["fam"] + "." + sp["type"], min(dims[0], 12)), fn="Operation.operator", op=sp["fam"] + "." + sp["type"])],
                     _mk_replay("C12", "operation", spec=sp, dims=dims))
+        # ---- one Operation object asked for its operator at several dimension lists (also lists with equal product)
+        reuse_specs = [
+            ({"fam": "comp", "type": "NonPolarizingBeamSplitter", "eta": float(rng.uniform(-4, 4))}, [[2, 6], [3, 4], [4, 3], [6, 2], [3, 3]]),
+            ({"fam": "comp", "type": "Expression", "state_types": ["F", "F"],
+              "expr": ["expm", ["s_mult", {"num": [0.0, 0.7]}, ["add", ["kron", "n0", "i1"], ["kron", "n0", "n1"]]]],
+              "context": {"n0": {"f": "number", "i": 0}, "n1": {"f": "number", "i": 1}, "i1": {"f": "eye", "i": 1}}}, [[2, 3], [3, 2], [2, 2], [4, 1], [1, 4]]),
+            ({"fam": "fock", "type": "Displace", "alpha": [0.3, -0.4]}, [[3], [5], [3], [8]]),
+            ({"fam": "fock", "type": "PhaseShift", "phi": float(rng.uniform(-7, 9))}, [[2], [6], [2]]),
+        ]
+        for sp, dimlists in reuse_specs:
+            op = opspec.build_operation(sp)
+            for dims in dimlists:
+                try:
+                    op.dimensions = list(dims)
+                    got = np.asarray(op.operator, complex)
+                    ok, det = contracts._cmp(got, opspec.ref_operator(sp, dims), 2e-6 if sp["type"] == "Expression" else 1e-7)
+                except Exception as e:  # noqa: BLE001
+                    ok, det = False, f"{type(e).__name__}: {e}"
+                _flush("C12", col, _mk_replay("C12", "operation-reused", spec=sp, dims=dims))
+                col.add([_V("C12", ok, "operation-operator-reused", f"{sp['fam']}.{sp['type']}: the same Operation object asked at dims={dims} (after other dimension lists): {det}",
+                            ("Operation.operator-reused", sp["fam"] + "." + sp["type"], tuple(dims)), fn="Operation.operator", op=sp["fam"] + "." + sp["type"])],
+                        _mk_replay("C12", "operation-reused", spec=sp, dimlists=dimlists))
         col.programs += 1
         if not thorough and rounds >= 6:
             break
@@ -172,9 +194,20 @@ def _rand_matrix(rng, d, kind):
     import jax.numpy as jnp
     m = rng.standard_normal((d, d)) + 1j * rng.standard_normal((d, d))
     m = m / 2
+    x = rng.random()
+    if x < 0.15:
+        m = np.triu(m, 1)  # nilpotent (ladder-operator like): not diagonalisable
+    elif x < 0.22:
+        m = np.eye(d) * complex(rng.uniform(-1, 1), rng.uniform(-1, 1)) + np.diag(np.ones(max(d - 1, 0)), 1)  # Jordan block
     if kind == "np":
         return np.array(m)
     return jnp.array(m)
+
+
+def _count_names(e):
+    if isinstance(e, tuple):
+        return sum(_count_names(x) for x in e[1:])
+    return 1 if isinstance(e, str) else 0
 
 
 def gen_tree(rng, depth, d, names, scalar_ok=True):
@@ -267,6 +300,24 @@ def c16_driver(a, col):
         # context called with exactly the dimension list, context arrays untouched
         bad = [c for c in calls if c[1] != dims or c[1] is None]
         col.add([_V("C16", not bad, "context-dims", f"context called with {bad[:2]} instead of {dims}", ("interpreter", "context-dims"), head=str(head))], replay)
+        # every occurrence of a name is resolved through a call of the context entry
+        occ = _count_names(before)
+        if exc is None and occ:
+            col.add([_V("C16", len(calls) >= occ, "context-not-called", f"{occ} name leaves but the context was called {len(calls)} times", ("interpreter", "context-calls"), head=str(head))], replay)
+        # the same context object, whose entries now return other values, must give the new value
+        if exc is None and occ and n % 3 == 0:
+            for nm in mats:
+                mats[nm] = _rand_matrix(rng, d, "jnp")
+            try:
+                ei.interpreter(expr, ctx, dims)
+            except Exception:  # noqa: BLE001
+                pass
+            for v in contracts.drain("C16"):
+                if v["status"] == "violated":
+                    v["mode"] = "stale-context-value" if v["mode"] == "wrong-value" else v["mode"]
+                v["cell"] = ("interpreter", "context-changed", str(head))
+                col.add([v], replay)
+            ctx_before = {nm: np.array(m).tobytes() for nm, m in mats.items()}
         changed = [nm for nm, m in mats.items() if np.array(m).tobytes() != ctx_before[nm]]
         col.add([_V("C16", not changed, "context-mutated", f"context results {changed} modified", ("interpreter", "context-bytes"), head=str(head))], replay)
         # malformed heads must raise
@@ -314,6 +365,11 @@ def c19_driver(a, col):
         w = max(s1, s2)
         mu1 = float(rng.choice([0.0, rng.uniform(-3, 3) * w]))
         mu2 = float(rng.choice([0.0, rng.uniform(-3, 3) * w]))
+        if x >= 0.1 and rng.random() < 0.2:
+            # pulses far from the time origin (a common offset of 1e3 .. 1e7 widths)
+            T = float(rng.choice([-1, 1]) * 10 ** rng.uniform(3, 7) * w)
+            mu1 += T
+            mu2 += T
         delay = float(rng.choice([0.0, rng.uniform(-8, 8) * w, rng.uniform(-1, 1) * w]))
         e1 = Envelope(temporal_profile=TemporalProfile.Gaussian.with_params(mu=mu1, sigma=s1)) if x >= 0.1 else Envelope()
         e2 = Envelope(temporal_profile=TemporalProfile.Gaussian.with_params(mu=mu2, sigma=s2)) if x >= 0.1 else Envelope()
